@@ -73,13 +73,21 @@ def run(ctx):
         b, s = _bindings(ctx, prog, side, adt_id, table)
         nb += b
         ns += s
-    ctx.floor("bind", nb, 104)
-    ctx.floor("bind-side", ns, 30)
+    ctx.floor("bind", nb, 92)
+    ctx.floor("bind-side", ns, 28)
     n = 0
     for side, adt_re in (("prog", r"^gmsol_store::states::market::config::MarketConfig"),
                          ("sdk", r"^gmsol_programs::gmsol_store::types::MarketConfig")):
         n += _closed(ctx, prog, side, adt_re)
-    ctx.floor("closed-switch", n, 10)
+    for side, fre in (("prog", r"^gmsol_store::states::market::Market::is_closed"),
+                      ("sdk", r"^gmsol_programs::model::market::<impl gmsol_programs::gmsol_store::accounts::Market>::is_closed")):
+        f = ctx.fn(fre)
+        if f is not None:
+            n += 1
+            ex = [str(e) for _, _, e in f.exits()]
+            ctx.ob("closed-switch:%s:is_closed" % side, ex == ["Market::flag(self, MarketFlag::Closed{})"],
+                   "%s reads the Closed market flag: %s" % (f.short, ex), where=f.where())
+    ctx.floor("closed-switch", n, 12)
 
 
 # ----------------------------------------------------------------------------- key tables
@@ -275,7 +283,7 @@ def _routes(ctx, prog):
 # ----------------------------------------------------------------------------- writers
 
 WRITER_OWNERS = [
-    (r"^gmsol_store::states::market::config::MarketConfig", {"init", "get_mut"}),
+    (r"^gmsol_store::states::market::config::MarketConfig", {"init", "get_mut", "set_flag"}),
     (r"^gmsol_store::states::market::config::MarketConfigFlagContainer", {"set_flag"}),
     (r"^gmsol_store::states::store::Amounts", {"init", "get_mut"}),
     (r"^gmsol_store::states::store::Factors", {"init", "get_mut"}),
